@@ -92,7 +92,7 @@ def body_family0(pid, tier, seed):
     # quick
     if pid == "C19":
         nested = [b for b in b3 if has_nested_in_if(b)]
-        return b2 + sample(nested, 60) + sample(w2, 20)
+        return b2 + sample(nested, 120) + sample(w2, 20)
     if pid == "C20":
         branchy = [b for b in w3 if sum(1 for o in b if o[0] in ("br_if", "br", "br_table")) >= 3]
         return b2 + sample(w2, 30) + sample(branchy, 60)
@@ -114,7 +114,7 @@ MODES = {
     "C20": ["semantic_after"],
     "C21": ["block_alt", "empty_block_alt"],
     "C22": ["semantic_after", "block_entry", "block_exit", "block_alt", "func_entry", "func_exit"],
-    "C05": ["before", "after", "semantic_after", "block_entry", "block_exit", "func_exit"],
+    "C05": ["before", "after", "semantic_after", "block_entry", "block_exit", "func_entry", "func_exit", "block_alt"],
     "C26": ["before", "after", "alt", "semantic_after", "block_entry", "block_exit", "block_alt", "func_entry", "func_exit"],
 }
 PATHS = ["moditer", "moditer_at", "fnmod", "fnmod_at", "compiter"]
